@@ -352,11 +352,41 @@ def shards(ctx):
     els = sorted(schema().element_type)
     again = [('attributes', el) for el in els] + [('attribute-group', g) for g in sorted(schema().attgroups)]
     jobs.append({'obs': again + list(reversed(again)), 'second_pass': True})
+    # the declarations are class-level data that instances are built from: after every class has been USED (also born
+    # unchecked and switched to checking later) the content models and attribute tables must still equal the schema's
+    jobs.append({'obs': [('language', el) for el in els] + [('attributes', el) for el in els], 'after_usage': True})
     return jobs
+
+
+def usage_warm_up():
+    """use every element class the ways an application does before its declarations are looked at again: build it
+    checked and unchecked, switch checking on afterwards, give it the children of a few valid words (long enough to
+    make repeated particles repeat), serialise, deep copy, remove"""
+    import copy as _copy
+    s = schema()
+    for el in sorted(s.element_type):
+        t = s.element_type[el]
+        words = list(s.dfa(t).enumerate(4, cap=30))[-3:] if s.content_kind(t) == 'elements' else [()]
+        for w in words:
+            for born_checked in (True, False):
+                r = call(driver.fresh, el, born_checked)
+                if not r.ok:
+                    continue
+                e = r.value
+                call(setattr, e, 'xsd_check', True)
+                kids = [driver.stub(a) for a in w]
+                for k in kids:
+                    call(e.add_child, k)
+                call(e.to_string)
+                call(_copy.deepcopy, e)
+                if kids:
+                    call(e.remove, kids[0])
 
 
 def run_shard(ctx, shard, acc):
     s = schema()
+    if shard.get('after_usage'):
+        usage_warm_up()
     for i, (kind, arg) in enumerate(shard['obs']):
         case = {'ob': kind, 'arg': arg}
         if shard.get('second_pass'):
@@ -368,11 +398,15 @@ def run_shard(ctx, shard, acc):
                 s.attributes_of(s.element_type[arg]))
         f = OBS[kind](arg)
         if f is not None:
+            if shard.get('after_usage'):
+                f['input']['after_usage'] = 1
             acc.fail(f, raise_=False)
 
 
 def replay_case(rec):
     inp = rec['input']
+    if inp.get('after_usage'):
+        usage_warm_up()
     kind = inp['ob']
     arg = inp.get('element') or inp.get('type') or inp.get('group')
     return OBS[kind](arg)
